@@ -20,7 +20,7 @@ import time as real_time
 
 from . import core
 from .core import Violation, Stats, EventLog
-from .env import SimFS, SimClock, make_fake_datetime_module, FakeTime
+from .env import SimFS, SimClock, ClockSeam
 
 PROP = "C20"
 MONTHS = ["Jan", "Feb", "Mar", "Apr", "May", "Jun", "Jul", "Aug", "Sep", "Oct",
@@ -441,9 +441,7 @@ def _execute(ctx, case, log, backend_cls):
     stats = Stats()
     violations = []
     clock = SimClock(case["start"])
-    fake_dt = make_fake_datetime_module(clock)
-    fake_time = FakeTime(clock)
-    saved_dt = rel.__dict__.get("datetime")
+    seam = ClockSeam(clock, rel)
     model_page = case["page"]
     first_ts, last_ts = clock.now, clock.now
 
@@ -451,9 +449,7 @@ def _execute(ctx, case, log, backend_cls):
         violations.append(Violation(PROP, cls, msg, fp))
 
     be = backend_cls(ctx, case["page"])
-    fake_time.install()
-    if saved_dt is not None:
-        rel.datetime = fake_dt
+    seam.install()
     try:
         for k, st in enumerate(case["steps"]):
             clock.now += st["jump"]
@@ -516,9 +512,7 @@ def _execute(ctx, case, log, backend_cls):
                 break
             model_page = after_s   # continue from the real page (== expected here)
     finally:
-        if saved_dt is not None:
-            rel.datetime = saved_dt
-        fake_time.uninstall()
+        seam.uninstall()
         be.close()
     stats.inc("clock_reads", clock.reads)
     stats.inc("sim_seconds_span", int(last_ts - first_ts))
@@ -632,7 +626,9 @@ def coverage(merged, tier):
                      "builtins.open/io.open for that path -> SimFS (in-memory); if the code "
                      "is seen to reach the file system without open(), the worker falls "
                      "back to judging on the real scratch directory (mtime / listing)",
-                     "release.datetime -> fake module reading SimClock",
+                     "every name in release.py bound to the datetime module, the datetime/date "
+                     "classes or a time function -> fakes reading SimClock; "
+                     "sys.modules['datetime'] likewise for imports made at call time",
                      "time.time/localtime/gmtime/strftime -> SimClock"]},
     }
 
